@@ -301,6 +301,20 @@ public:
         return write(chars, start, length, m_charRefFunctor);
     }
 
+    /**
+     * Writes a character of a comment or a processing instruction,
+     * where no character reference can stand for it: a character
+     * that is not representable raises an exception.
+     */
+    size_type
+    writeLiteral(
+            const XalanDOMChar  chars[],
+            size_type           start,
+            size_type           length)
+    {
+        return write(chars, start, length, m_exceptionFunctor);
+    }
+
     void
     writeSafe(
             const XalanDOMChar*     theChars,
